@@ -8,7 +8,7 @@ structural comparison of every attribute the two objects have in common (vmon.re
 for bit, sets as sets), presence of every attribute the class declares as stored, and BITWISE equality
 (np.array_equal) of the results of the same calls on original and copy: Lij for inputs that hit the
 reloaded cache, for new inputs (which extend it), after a second save/reload generation, tags, tags2preene,
-makeLIMBpreene, maketracerpreene, interactlist/omegalist, GFcalc(i,j,dx), Diffusivity, star-set indexing and
+makeLIMBpreene, maketracerpreene, interactlist/omegalist, makesupercells, GFcalc(i,j,dx), Diffusivity, star-set indexing and
 omega-1/omega-2 networks, vector-star expansions, Taylor evaluations.
 """
 import numpy as np
@@ -31,7 +31,7 @@ ASSUMPTIONS = ['bitwise equality is demanded for every result (the copy holds th
 REQUIRED_OBS = {'roundtrip:VacancyMediated': 8, 'roundtrip:VacancyMediated:populated': 4, 'roundtrip:VacancyMediated:empty': 4,
                 'roundtrip:VacancyMediated:second-generation': 8, 'roundtrip:GFCrystalcalc': 6, 'roundtrip:StarSet': 6,
                 'roundtrip:VectorStarSet': 6, 'roundtrip:Taylor': 6, 'eval:C13:VM:Lij-bitwise': 40, 'eval:C13:VM:struct': 8,
-                'eval:C13:VM:cache-hit': 4, 'eval:C13:VM:tags2preene': 8, 'eval:C13:GF:value-bitwise': 60,
+                'eval:C13:VM:cache-hit': 4, 'eval:C13:VM:tags2preene': 8, 'eval:C13:VM:makesupercells': 8, 'eval:C13:GF:value-bitwise': 60,
                 'eval:C13:yaml:Crystal': 6, 'eval:C13:yaml:GroupOp': 40, 'eval:C13:yaml:PairState': 20,
                 'eval:C13:yaml:ClusterSite': 10, 'eval:C13:yaml:Cluster': 20, 'eval:C13:yaml:vTK': 6,
                 'dim2_roundtrips': 3, 'multisite_roundtrips': 3, 'multiwyckoff_roundtrips': 2, 'yaml_cluster_kinds': 3}
@@ -133,6 +133,8 @@ def check_vm(mon, rng, d, ctx, populate, generations=2):
             diffs, missing = structcmp.diff(d, d2, 'VM', skip=skip)
             report(mon, 'C13:VM:struct', diffs, g + ctx)
             lost = [p for p, side in missing if side == 'right']
+            for k in ('threshold',):
+                if hasattr(d, k) and not hasattr(d2, k): mon.seen('attributes_not_on_copy', k)
             for p in lost: mon.seen('attributes_not_on_copy', 'GFcalc.<state of last SetRates>' if p.startswith('VM.GFcalc.') else p.split('.', 1)[1])
             stored = [k for k in VM.__HDF5list__ if not hasattr(d2, k)] + \
                      [k for k in ('crys', 'sitelist', 'jumpnetwork', 'om0_jn', 'om1_jn', 'om2_jn', 'GFcalc', 'thermo', 'kinetic', 'NNstar',
@@ -161,6 +163,8 @@ def check_vm(mon, rng, d, ctx, populate, generations=2):
                 report(mon, 'C13:VM:makeLIMBpreene', bits(d.makeLIMBpreene(**kw), d2.makeLIMBpreene(**kw)), g + ctx)
                 report(mon, 'C13:VM:interactlist', bits(d.interactlist(), d2.interactlist()), g + ctx)
                 report(mon, 'C13:VM:omegalist', bits((d.omegalist(1), d.omegalist(2)), (d2.omegalist(1), d2.omegalist(2))), g + ctx)
+            if gen_no == 0:
+                check_supercells(mon, d, d2, g + ctx)
             # 3. results: cache hits, new inputs, repeated inputs, different large_om2
             order = [0, 1, 2, 5, 0, 3, 2] if gen_no == 0 else [1, 4, 3, 0, 5]
             for step, k in enumerate(order):
@@ -191,6 +195,40 @@ def check_vm(mon, rng, d, ctx, populate, generations=2):
             cur = d2  # next generation: save the copy (its cache now has reloaded + new entries)
     finally:
         f.close()
+
+
+def check_supercells(mon, d, d2, ctx):
+    """makesupercells on original and copy: same tags, same index map, same defect supercells (the group operations
+    recorded for transitions may be any of several equivalent ones and are not compared)"""
+    import warnings
+    dim = d.crys.dim
+    n = (4 if dim == 2 else 3) if d.N <= 2 else (3 if dim == 2 else 2)
+    S = n * np.eye(dim, dtype=int)
+    res = []
+    for calc, who in ((d, 'original'), (d2, 'copy')):
+        try:
+            with warnings.catch_warnings():
+                warnings.simplefilter('ignore')
+                res.append(calc.makesupercells(S))
+        except Exception as e:
+            res.append(e)
+    r1, r2 = res
+    if isinstance(r1, Exception):
+        mon.count('makesupercells_refused_by_original')
+        mon.check(isinstance(r2, Exception) and type(r1) == type(r2), 'C13:VM:makesupercells', 'original raises %r, copy gives %r %s' % (r1, type(r2), ctx))
+        return
+    if isinstance(r2, Exception):
+        mon.check(False, 'C13:VM:makesupercells', 'works on the original (%d states, %d transitions), the copy raises %s: %s %s' % (
+            len(r1['states']), len(r1['transitions']), type(r2).__name__, r2, ctx),
+                  tags=['reloaded-calculator-lacks-attribute'] if isinstance(r2, AttributeError) else [])
+        return
+
+    def digest(r):
+        return {'indices': r['indices'], 'state tags': sorted(r['states']), 'transition tags': sorted(r['transitions']),
+                'mapping tags': sorted(r['transmapping']), 'reference': r['reference'].POSCAR('ref'),
+                'states': {k: v.POSCAR(k) for k, v in r['states'].items()}}
+    with mon.guard('C13:VM:makesupercells'):
+        report(mon, 'C13:VM:makesupercells', bits(digest(r1), digest(r2)), ctx)
 
 
 def check_gf(mon, rng, crys, chem, sitelist, jn, ctx, GF=None, Nmax=2):
